@@ -263,6 +263,8 @@ pub const FX_D: &str = "d_tiny_raw.mpq";
 pub const FX_E: &str = "e_empty.mpq";
 pub const FX_F: &str = "f_v4.mpq";
 pub const FX_S: &str = "s_shared.mpq";
+pub const FX_U: &str = "u_unicode.mpq";
+pub const NFIX: u32 = 8;
 
 pub fn fixture_table() -> Vec<Fixture> {
     let s = |v: &[&str]| v.iter().map(|x| x.to_string()).collect::<Vec<_>>();
@@ -278,6 +280,23 @@ pub fn fixture_table() -> Vec<Fixture> {
         Fixture { file: FX_E, listfile: true, names: vec![] },
         Fixture { file: FX_F, listfile: true, names: s(&["v4\\alpha.bin", "v4\\beta.bin", "gamma"]) },
         Fixture { file: FX_S, listfile: true, names: s(&["shared\\big.dat", "shared\\mid.dat", "shared\\small.dat", "p0.dat", "p1.dat", "p2.dat", "p3.dat"]) },
+        // names outside ASCII, short and longer than the 259 bytes a find record holds, with a multi-byte character standing
+        // on / across that limit (2-, 3- and 4-byte characters starting at bytes 256..259; after C19-r6m3)
+        Fixture { file: FX_U, listfile: true, names: {
+            let mut n = s(&["\u{fc}n\u{ef}\\c\u{f4}d\u{e9}.txt", "\u{65e5}\u{672c}\\\u{8a9e}.bin"]);
+            for (ch, starts) in [("\u{e9}", vec![258usize, 259]), ("\u{20ac}", vec![257, 258, 259]), ("\u{1d11e}", vec![256, 257, 258, 259])] {
+                for st in starts {
+                    let mut x = String::from("uni\\");
+                    while x.len() < st {
+                        x.push((b'a' + (x.len() % 26) as u8) as char);
+                    }
+                    x.push_str(ch);
+                    x.push_str(&format!("\\tail{st}.bin"));
+                    n.push(x);
+                }
+            }
+            n
+        } },
     ]
 }
 
@@ -290,6 +309,7 @@ fn fixture_len(fx: &str, k: usize) -> usize {
         FX_D => [40usize, 9][k % 2],
         FX_F => [100usize, 6000, 3][k % 3],
         FX_S => [40000usize, 4000, 96, 1000, 1001, 1002, 1003][k % 7],
+        FX_U => 50 + 37 * k,
         _ => 0,
     }
 }
